@@ -32,9 +32,10 @@ class _Inert:
 class RecGen(PartGenerator):
     """Documented extension point generate_part_helper; records what a source made."""
 
-    def __init__(self, prefix, value, log, batch_sizes=None):
+    def __init__(self, prefix, value, log, batch_sizes=None, items=None):
         super().__init__(prefix, value=value)
         self._log = log
+        self._items = items if items is not None else []
         self._batch_sizes = batch_sizes
 
     def generate_part_helper(self, part_name, part_counter):
@@ -61,10 +62,12 @@ class RecGen(PartGenerator):
                 self._log.append(p)
             b = Batch(part_name, parts)
             b.idx = (part_counter, None)
+            self._items.append(b)
             return b
         p = super().generate_part_helper(part_name, part_counter)
         p.idx = (part_counter, None)
         self._log.append(p)
+        self._items.append(p)
         return p
 
     def __deepcopy__(self, memo):
@@ -84,6 +87,7 @@ class World:
         self.kind = {}           # name -> kind string
         self.order = []          # device names in spec order
         self.generated = []      # leaf parts in creation order (per run)
+        self.items = []          # what the sources generated (parts and batches), in creation order
         self.maintainer = None
         self.monitors = []
         self.events = 0
@@ -158,7 +162,7 @@ def build(world):
         # a device listed in a group is created first; the group is created when its first path is needed
         up = [world.dev[u] for u in d.get('up', [])]
         if k == 'source':
-            gen = RecGen(f'P{name}', world.val(d.get('value', 0)), world.generated, d.get('batches'))
+            gen = RecGen(f'P{name}', world.val(d.get('value', 0)), world.generated, d.get('batches'), world.items)
             if 'batches' in d and d['batches'] is not None:
                 gen._batch_sizes = [None if b is None else (tuple(b) if isinstance(b, (list, tuple)) else world.val(b)) for b in d['batches']]
             obj = Source(name, gen, world.val(d.get('cycle', 0)), d.get('parts', 2))
@@ -1090,12 +1094,13 @@ class ValueMon(Monitor):
                 src = w.dev[n]
                 recs = data.get('supplied_new_part', {}).get(n, [])
                 for rec in recs[self.n_sup[n]:]:
-                    part = next(p for p in w.generated if p.id == rec[1])
-                    # value of the part when it left the source = its value history up to that instant
-                    v = z(part._initial_value)
-                    for e in part.value_history:
-                        v = v + ctx.If(z(e[1]) < z(rec[0]), z(e[2]), 0)
-                    self.supplied[n] = self.supplied[n] + v
+                    item = next(p for p in w.items if p.id == rec[1])
+                    # value of the supplied item when it left the source = value history of its leaf parts up to that instant
+                    for part in leaves(item):
+                        v = z(part._initial_value)
+                        for e in part.value_history:
+                            v = v + ctx.If(z(e[1]) < z(rec[0]), z(e[2]), 0)
+                        self.supplied[n] = self.supplied[n] + v
                 self.n_sup[n] = len(recs)
                 ctx.require(z(src.value) == 0 - self.supplied[n], 'source value != -(summed value of supplied parts)', n)
                 ctx.require(z(src.cost_of_produced_parts) == self.supplied[n], 'cost_of_produced_parts != summed value of supplied parts', n)
@@ -1122,7 +1127,7 @@ class ValueMon(Monitor):
                 for slot in (getattr(d, '_part', None), getattr(d, '_output', None)):
                     if isinstance(slot, Batch):
                         s = 0
-                        for p in slot.parts:
+                        for p in leaves(slot):          # nested batches: worth = sum over the leaf parts
                             s = s + z(p.value)
                         ctx.require(ctx.real(lambda: slot.value) == s, 'batch value != sum of its parts', n)
                         ctx.goal('batch_valued')
